@@ -11,11 +11,11 @@ CLAIMED = {
 CLAIMED.update({
  'C03': dict(
    text="Lean 4 proofs, for every number of populations, grid, flag setting and number of time steps (induction on the step count): one full time step (mutation injection + every non-frozen axis) and whole constant-parameter and time-dependent integrations are linear in (density, theta0) jointly; the time-step rule is homogeneous (dt scales by exactly c under nu->c*nu, m->m/c, gamma->gamma/c) and is applied to the right per-population quantities at every call site (table decided); one full step and whole integrations (constant and time-dependent parameters p'(t)=scale(p(t/c))) leave every intermediate density unchanged under the reference-size re-scaling. Injection increments, the dt rule and all coefficient formulas are regenerated from Integration.py / the C sources on every run; the executable model (dt rule, injection, full sweeps with frozen/nomut flags, 1-3 step constant and affine-in-time runs in 1-5 populations) is compared with the implementation in exact rationals. Superposition/re-scaling residuals, the dt call-site wiring, equilibrium constructors and composite models are evaluated on the real code as the failing-input search.",
-   note="Trusted: Lean kernel + Mathlib (propext/Classical.choice/Quot.sound), tools/translate.py, the correspondence harness (1e-9). The theorems are about the functional form of the sweep (sweepFn); that the tabulated array sweep the driver runs equals it is validated by correspondence, not proved. Float round-off is outside the model ('up to round-off' is checked at 1e-9..1e-10). Split/admix/sampling steps take no scaled parameter (by inspection; composite models are exercised numerically).",
+   note="Trusted: Lean kernel + Mathlib (propext/Classical.choice/Quot.sound), tools/translate.py, the correspondence harness (1e-9). The theorems are stated on the functional form of the sweep (sweepFn) and transferred to the tabulated arrays the driver runs by proved bridge theorems (C03_tabulated_*: equality on every valid index, any dimension, any number of steps). Float round-off is outside the model ('up to round-off' is checked at 1e-9..1e-10). Split/admix/sampling steps take no scaled parameter (by inspection; composite models are exercised numerically).",
    technique="Lean 4 induction proofs over a model regenerated from source + exact-rational differential correspondence", ref="5/C03"),
  'C04': dict(
    text="Lean 4 proofs (all grid sizes, dimensions, axes, rational parameters, both delj settings): trapezoid mass balance of every line of every kernel sweep (mass changes only by dt x absorbing term at the two ends); absorbing terms vanish unless all other coordinates are 0 or all are 1, so every non-corner line conserves mass exactly; hence for any set of non-corner lines with any weights (e.g. a frozen population's interior frequency) the weighted marginal is unchanged by a sweep; a line where another population is at an interior frequency is never a corner line; frozen axes are skipped; injection touches only the unit multi-indices of non-frozen (2-D: non-nomut) populations (generated table decided); without migration and selection the first/last interior rows decouple (a1 = c_{N-2} = 0); the frozen/migration guard expressions of two_pops..five_pops (generated) equal 'some frozen population has a non-zero rate in or out'; the kernels' corner-guard wiring table is decided. Correspondence of full sweeps with flags in exact rationals; frozen marginals, isolated marginals (shared time steps), per-kernel line-mass bookkeeping through recorded kernel calls, injection support/amount and the exhaustive frozen x migration rejection table are evaluated on the real code.",
-   note="Trusted as for C02/C03. NOT proved: the isolated-marginal clause as a whole (marginal of a subset evolves as the subset alone) - its line-level ingredients are proved, the composition over sweeps is validated numerically only; equality of tabulated and functional sweep is validated by correspondence.",
+   note="Trusted as for C02/C03. NOT proved: the isolated-marginal clause as a whole (marginal of a subset evolves as the subset alone) - its line-level ingredients are proved, the composition over sweeps is validated numerically only (the tabulated/functional bridge is proved in C03).",
    technique="Lean 4 proofs (telescoping flux sums, generated guard tables) + exact-rational correspondence + recorded-kernel mass bookkeeping", ref="5/C04"),
 })
 CLAIMED.update({
